@@ -835,8 +835,42 @@ fn drive_spending_long(sys: &mut Sys, r: &mut StdRng, t: &mut Trace) {
     o["per"] = json!(period);
     let ev = sys.step(&o);
     t.step(ev);
-    for i in 0..1230 {
-        let filling = i < 1010;
+    let mut first_l: Option<i64> = None;
+    let (mut hn, mut probed, mut tail) = (0i64, false, 0usize);
+    for _ in 0..1500 {
+        // fill until the history holds MAX_HISTORY_ENTRIES = 1000 entries (all of them inside the window), probe, then a
+        // tail of 220 calls during which old entries drop out a few at a time
+        let filling = hn < 1000 && !probed;
+        if !filling {
+            tail += 1;
+            if tail > 220 {
+                break;
+            }
+        }
+        if !filling && !probed {
+            probed = true;
+            // directed: the history is full and (still) entirely inside the window - probe can_enforce / enforce one
+            // ledger before, at and after the ledger at which the oldest entries leave the window
+            if let Some(l0) = first_l {
+                for aim in [l0 + period - 1, l0 + period, l0 + period + 1] {
+                    let now = seq(&sys.e) as i64;
+                    if aim < now {
+                        continue;
+                    }
+                    for (j, kind) in ["can", "enforce"].iter().enumerate() {
+                        let au: &[&str] = if *kind == "can" { &[] } else { &["acct"] };
+                        let mut o = g.op(kind, if j == 0 { aim - now } else { 0 }, au);
+                        o["amt"] = json!(1);
+                        o["sg"] = json!(["s1"]);
+                        let ev = sys.step(&o);
+                        t.step(ev);
+                        if sys.over_limits {
+                            return;
+                        }
+                    }
+                }
+            }
+        }
         let dt = if filling { *pick(g.r, &[0i64, 0, 0, 0, 1]) } else { *pick(g.r, &[0i64, 0, 1, 1, 2, 3, 5]) };
         let kind = if g.r.gen_bool(0.03) { "can" } else { "enforce" };
         let au = if kind == "can" { vec![] } else { g.auth(0.97) };
@@ -851,6 +885,10 @@ fn drive_spending_long(sys: &mut Sys, r: &mut StdRng, t: &mut Trace) {
             o["amt"] = json!(if tight { *pick(g.r, &[1200i64, 1300, 1400]) } else { 1_000_000 });
         }
         let ev = sys.step(&o);
+        if first_l.is_none() && ev["res"] == "ok" && ev["op"]["op"] == "enforce" && ev["op"]["ctx"] == "transfer" {
+            first_l = ev["now"].as_i64();
+        }
+        hn = ev["obs"]["hn"].as_i64().unwrap_or(0);
         t.step(ev);
         if sys.over_limits {
             return;
